@@ -95,6 +95,8 @@ def stdlib_table():
             "collections": {"defaultdict": m_defaultdict, "deque": m_deque, "Counter": m_counter, "OrderedDict": dict},
             "operator": {n: getattr(operator, n) for n in ("itemgetter", "attrgetter", "or_", "and_", "xor", "not_", "add", "sub", "mul", "eq", "ne", "lt", "le", "gt", "ge", "contains")},
             "queue": {"Queue": MQueue},
+            "weakref": {"WeakKeyDictionary": dict, "WeakValueDictionary": dict, "WeakSet": set},
+            "copy": {"copy": __import__("copy").copy, "deepcopy": __import__("copy").deepcopy},
             "math": {n: getattr(__import__("math"), n) for n in ("ceil", "floor", "log2", "log", "sqrt", "inf")},
         }
         _STDLIB["itertools"]["chain"] = MChain()
